@@ -657,6 +657,20 @@ def len_eq(fx: ast.AST) -> Optional[Tuple[ast.AST, str, int]]:
     return None
 
 
+def pop_is_lifo(x) -> bool:
+    """a list pop that removes the newest entry: pop() or pop(-1).  `x` is an Event (argument terms) or an ast.Call"""
+    if isinstance(x, ast.Call):
+        if x.keywords or len(x.args) > 1:
+            return False
+        if not x.args:
+            return True
+        a = x.args[0]
+        return isinstance(a, ast.UnaryOp) and isinstance(a.op, ast.USub) and isinstance(a.operand, ast.Constant) and a.operand.value == 1
+    if getattr(x, "kws", ()):
+        return False
+    return not x.args or tuple(x.args) == (("const", -1),)
+
+
 def known_empty(atoms, name: str) -> Optional[bool]:
     """what the facts say about the local list `name`: True = empty, False = not empty, None = nothing.
     `len(x) == 0`, `len(x) > 0`, `not x`, `x` are all read."""
